@@ -45,21 +45,40 @@ func ReplayCLI(i int, raw []byte) child.Result {
 	}
 	// every other pair is given to `wrgl diff` as two CSV FILES (ingested by the command into its in-memory
 	// store, with the worker count of the command line), the others as two committed branches
-	files := i%2 == 1 || os.Getenv("CLIDIFF_FILES") != ""
+	// ... a file against a branch (the command's in-memory store on one side, the repository on the other) and,
+	// where no row is modified (without a key a modified row is a removed and an added one), two branches whose
+	// tables have no primary key
+	form := i % 4
+	if os.Getenv("CLIDIFF_FILES") != "" {
+		form = 1
+	}
+	files := form == 1
+	nopk := form == 3
+	for _, e := range sc.Events {
+		if k, _ := e[0].(string); k == "mod" {
+			nopk = false
+		}
+	}
 	args := []string{"diff", "b1", "b2", "--no-gui"}
 	for bi, t := range [][]int{sc.T1, sc.T2} {
 		rows := append([][]string{header2}, scaledRows(t, s)...)
 		fp, _ := r.WriteFile(fmt.Sprintf("t%d.csv", bi+1), tbl.CSV(rows, 0))
-		if files {
+		if files || (form == 2 && bi == 0) {
 			args[bi+1] = fp
 			continue
 		}
-		if out, err := r.Run(nil, "commit", fmt.Sprintf("b%d", bi+1), fp, "t", "-n", "1", "-p", header2[0]); err != nil {
+		cargs := []string{"commit", fmt.Sprintf("b%d", bi+1), fp, "t", "-n", "1"}
+		if !nopk {
+			cargs = append(cargs, "-p", header2[0])
+		}
+		if out, err := r.Run(nil, cargs...); err != nil {
 			return child.Inconclusive(fmt.Errorf("commit: %v %s", err, out))
 		}
 	}
 	if files {
 		args = append(args, "-p", header2[0], "-n", "8")
+	} else if form == 2 {
+		args = append(args, "-p", header2[0])
 	}
 	old, _ := os.Getwd()
 	if err := os.Chdir(work); err != nil {
@@ -118,6 +137,12 @@ func ReplayCLI(i int, raw []byte) child.Result {
 	}
 	if files {
 		return child.Pass("cli-files")
+	}
+	if form == 2 {
+		return child.Pass("cli-file-branch")
+	}
+	if nopk {
+		return child.Pass("cli-nopk")
 	}
 	return child.Pass("cli")
 }
